@@ -51,6 +51,27 @@ fn run(case: &HashMap<String, String>) -> String {
             ),
             Err(_) => "{\"outcome\":\"err\"}".to_string(),
         },
+        "rdata_parse" => {
+            let mut pos: usize = case["pos"].parse().unwrap();
+            let start = pos;
+            macro_rules! go {
+                ($t:ty) => {
+                    match <$t as WireFormat>::parse(&bytes, &mut pos) {
+                        Ok(_) if pos > bytes.len() || pos < start => "{\"outcome\":\"cursor\"}".to_string(),
+                        Ok(_) => format!("{{\"outcome\":\"ok\",\"end\":{}}}", pos),
+                        Err(_) => "{\"outcome\":\"err\"}".to_string(),
+                    }
+                };
+            }
+            match case["type"].as_str() {
+                "TXT" => go!(crate::rdata::TXT),
+                "OPT" => go!(crate::rdata::OPT),
+                "NSEC" => go!(crate::rdata::NSEC),
+                "SVCB" => go!(crate::rdata::SVCB),
+                "HTTPS" => go!(crate::rdata::HTTPS),
+                _ => "{\"outcome\":\"unknown-type\"}".to_string(),
+            }
+        }
         "rr_parse" => {
             let mut pos: usize = case["pos"].parse().unwrap();
             match ResourceRecord::parse(&bytes, &mut pos) {
